@@ -12,7 +12,8 @@ import os
 LEVEL = "exploration"
 DECIDING = ["line_events"]
 RULE = (
-    "full product qualifier-subset x value-sequence x rest-matches (quick, thorough); thorough adds tracking-keyed "
+    "full product qualifier-subset x value-sequence x rest-matches (quick, thorough), and again - for the 128 subsets without onmatch - with an "
+    "onmatch-qualified sibling assignment and the rest of the line placed before the assignment under test; thorough adds tracking-keyed "
     "variables (@x.k.<Q>), the qualifier order reversed, and 4-line sequences (1/6 sample). Non-trivial: at least one "
     "line has a value for y; distinct = distinct (qualifiers, sequence, rest, variant) tuples."
 )
@@ -103,6 +104,14 @@ def cases(tier):
         for ys in itertools.product(vals, repeat=3):
             for rest in (True, False):
                 yield {"quals": list(quals), "ys": list(ys), "rest": rest, "variant": "plain"}
+    # the same table with an onmatch-qualified sibling assignment and the rest of the line placed BEFORE the assignment
+    # under test (qualifier sets without onmatch: two onmatch components on a line are known finding F9b's ground)
+    for quals in subsets:
+        if "onmatch" in quals:
+            continue
+        for ys in itertools.product([None, "1", "2", "3"], repeat=3):
+            for rest in (True, False):
+                yield {"quals": list(quals), "ys": list(ys), "rest": rest, "variant": "after-onmatch-sibling"}
     if tier == "thorough":
         n = 0
         for quals in subsets:
@@ -134,6 +143,8 @@ def run_case(case, agg):
     name = "@x.k" if variant == "tracking" else "@x"
     qs = "".join("." + q for q in quals)
     prog = f'${fname}[*][ {name}{qs} = #1 {"yes()" if rest else "no()"} ]'
+    if variant == "after-onmatch-sibling":
+        prog = f'${fname}[*][ @h.onmatch = #0 {"yes()" if rest else "no()"} {name}{qs} = #1 ]'
     c, cap = env.new_csvpath(["collect", "print"])
     with hooks.recording(agg) as rec:
         try:
